@@ -59,7 +59,9 @@ var PDUSessionEstablishmentAcceptOptionalElementsHalfByte = []byte{
 // It returns a tuple of assigned IP for the UE and the corresponding TEID.
 func EstablishPDU(sst int32, sd string, ue *tglib.RanUeContext, conn *sctp.SCTPConn, gnb_gtp string) (net.IP, uint32, net.IP) {
 
-	var recvMsg = make([]byte, 2048)
+	// a PDU SESSION RESOURCE SETUP REQUEST carries a NAS message of up to 65535 octets
+	// (QoS rules and flow descriptions alone may take several thousand)
+	var recvMsg = make([]byte, 65535+2048)
 	sNssai := models.Snssai{
 		Sst: sst,
 		Sd:  sd,
